@@ -42,7 +42,9 @@ def directed_stale():
     followed by calls on all three and a new session (its id may be the address of a swept one)"""
     out = []
     for (a, b) in STALE_GAPS:
-        ev = [("new", 0, "vs_script"), ("new", 1, "vs_fluid"), ("new", 2, "vs_script"), ("op", 0, "key 97 0"), ("op", 1, "key 98 0")]
+        # the clock has moved before the first session exists: a session that was never looked up is as old as its creation,
+        # not as old as the epoch
+        ev = [("advance", 1000), ("new", 0, "vs_script"), ("new", 1, "vs_fluid"), ("new", 2, "vs_script"), ("op", 0, "key 97 0"), ("op", 1, "key 98 0")]
         gone = stale_block(ev, [0, 1, 2], {1: "key 97 0"}, a, b)
         for k in (0, 1, 2):
             ev += [("op", k, "key 98 0"), ("op", k, "key 32 0"), ("op", k, "read_commit")]
